@@ -101,3 +101,61 @@ Theorem C01_code_get : forall (G P : Type) (tf : TheFittest G P) f, tf_fitness G
   abs_best G P tf = Some {| ig := tf_genotype G P tf; iph := tf_phenotype G P tf; ifit := f |}.
 Proof. exact code_get. Qed.
 Print Assumptions C01_code_get.
+
+(* ------------------------------------------------------------------------------------------------
+   THE WHOLE RUN, tied to the source.  gen/GenLoop.v also holds the translations of _get_fitness, _update_fittest,
+   _update_stats, _update_data, _from_population_g_to_fitness and fit (dynamic dispatch = a parameter; the joblib branch
+   = an opaque parameter that n_jobs <= 1 never reaches).  theories/CodeEqStep.v proves that the loop model SIMULATES the
+   generated run of the generational family (GA, SelfCGA, PDPGA, GP, SelfCGP, PDPGP: the base class's generation step)
+   on every field the code keeps (sim: population triples, record, stagnation counter, call counter, history, callback
+   count), for every objective, genotype_to_phenotype, variation oracle, budget and stopping rule.  The C01 statement then
+   reads on the generated run itself. *)
+From TF Require Import CodeEqStep.
+
+Theorem C01_code_step : forall (G P : Type) (dG : G) (dP : P) (g2p : G -> P) (f : P -> Q) par_value
+    (self : EvolutionaryAlgorithm G P) (st : state G P) (gs : list G) (first : bool),
+  sim G P dG dP self st -> gs <> [] -> (ea_n_jobs G P self <= 1)%Z ->
+  sim G P dG dP (from_pop G P dG dP g2p f par_value (set_pop_g G P self gs))
+      (step G P g2p (nf_of G P f self) Generational (ea_elitism G P self) (ea_keep_history G P self) first st gs).
+Proof. exact code_step. Qed.
+Print Assumptions C01_code_step.
+
+Theorem C01_code_fit : forall (G P : Type) (dG : G) (dP : P) (g2p : G -> P) (f : P -> Q) par_value
+    (newpop : EvolutionaryAlgorithm G P -> list G) (var : state G P -> list G) (self0 : EvolutionaryAlgorithm G P) (gs0 : list G),
+  sim G P dG dP self0 (init_state G P) -> gs0 <> [] ->
+  (ea_n_jobs G P self0 <= 1)%Z -> ea_aim G P self0 <> NegInf -> fst (ea_on_generation G P self0) = true ->
+  (forall n, ea_no_increase_num G P self0 = Some n -> (0 <= n)%Z) ->
+  (forall s st, sim G P dG dP s st -> newpop s = var st) -> (forall st, var st <> []) ->
+  sim G P dG dP
+      (py_EvolutionaryAlgorithm_fit G P (fun s => set_pop_g G P s gs0) (fun s => set_pop_g G P s (newpop s))
+                                    (from_pop G P dG dP g2p f par_value) self0)
+      (fit G P g2p (nf_of G P f self0) Generational (ea_elitism G P self0) (ea_keep_history G P self0)
+           (abs_aim (ea_aim G P self0)) (abs_nin (ea_no_increase_num G P self0)) var (Z.to_nat (ea_iters G P self0)) gs0).
+Proof. exact code_fit. Qed.
+Print Assumptions C01_code_fit.
+
+(* the premise is satisfiable: the constructed object is in the simulation with the model's initial state *)
+Theorem C01_code_init_sim : forall (G P : Type) (dG : G) (dP : P) iters pop_size minimization optimal err nin elitism keep_history n_jobs has_cb,
+  sim G P dG dP (py_EvolutionaryAlgorithm_init G P dG dP iters pop_size minimization optimal err nin elitism keep_history n_jobs has_cb) (init_state G P).
+Proof. exact init_sim. Qed.
+Print Assumptions C01_code_init_sim.
+
+(* C01 (and the budget of C03) on the generated run: the record after fit() is the maximum over everything the run
+   evaluated, an evaluated triple; _calls is pop_size * generations; on_generation ran generations - 1 times *)
+Theorem C01_src_fit : forall (G P : Type) (dG : G) (dP : P) (g2p : G -> P) (f : P -> Q) par_value
+    (newpop : EvolutionaryAlgorithm G P -> list G) (var : state G P -> list G) (self0 : EvolutionaryAlgorithm G P) (gs0 : list G) (n : nat),
+  sim G P dG dP self0 (init_state G P) -> (0 < n)%nat -> length gs0 = n -> (forall st, length (var st) = n) -> (1 <= ea_iters G P self0)%Z ->
+  (ea_n_jobs G P self0 <= 1)%Z -> ea_aim G P self0 <> NegInf -> fst (ea_on_generation G P self0) = true ->
+  (forall m, ea_no_increase_num G P self0 = Some m -> (0 <= m)%Z) ->
+  (forall s st, sim G P dG dP s st -> newpop s = var st) ->
+  let self := py_EvolutionaryAlgorithm_fit G P (fun s => set_pop_g G P s gs0) (fun s => set_pop_g G P s (newpop s))
+                                           (from_pop G P dG dP g2p f par_value) self0 in
+  let st := fit G P g2p (nf_of G P f self0) Generational (ea_elitism G P self0) (ea_keep_history G P self0)
+                (abs_aim (ea_aim G P self0)) (abs_nin (ea_no_increase_num G P self0)) var (Z.to_nat (ea_iters G P self0)) gs0 in
+  (exists b, abs_best G P (ea_thefittest G P self) = Some b /\ In b (evaluated st) /\
+             Forall (fun e => (ifit e <= ifit b)%Q) (evaluated st) /\ iph b = g2p (ig b) /\ ifit b = nf_of G P f self0 (iph b)) /\
+  ea_calls G P self = Z.of_nat (calls st) /\ (calls st = n * gens st)%nat /\
+  (1 <= gens st <= Z.to_nat (ea_iters G P self0))%nat /\
+  snd (ea_on_generation G P self) = Z.of_nat (gens st - 1).
+Proof. exact src_fit_best_and_calls. Qed.
+Print Assumptions C01_src_fit.
